@@ -3132,7 +3132,8 @@ class TypedDictType(ProperType):
     def write(self, data: WriteBuffer) -> None:
         write_tag(data, TYPED_DICT_TYPE)
         self.fallback.write(data)
-        write_type_map(data, self.items)
+        # Item order is the definition order and is visible in messages (the JSON format keeps it).
+        write_type_map(data, self.items, keep_order=True)
         write_str_list(data, sorted(self.required_keys))
         write_str_list(data, sorted(self.readonly_keys))
         write_bool(data, self.is_closed)
@@ -4587,10 +4588,10 @@ def read_type_map(data: ReadBuffer) -> dict[str, Type]:
     return {read_str_bare(data): read_type(data) for _ in range(size)}
 
 
-def write_type_map(data: WriteBuffer, value: dict[str, Type]) -> None:
+def write_type_map(data: WriteBuffer, value: dict[str, Type], keep_order: bool = False) -> None:
     write_tag(data, DICT_STR_GEN)
     write_int_bare(data, len(value))
-    for key in sorted(value):
+    for key in value if keep_order else sorted(value):
         write_str_bare(data, key)
         value[key].write(data)
 
